@@ -14,9 +14,9 @@ MANIFEST_ENTRY = {
           "end, one metadata record per instruction naming an existing node). Theorems in coq/Properties/C05.v: the executable "
           "checker decides that proposition; for all 73^3 token triples and all token sequences of length <= 5 over an 18-token "
           "reduced alphabet, for three initial states of the data object, every build accepted by the parser and worklist-builder "
-          "models is well-formed or in finding class C05-K1, and the structurally recursive tree compiler (Model/Compile.v) "
+          "models is well-formed, and the structurally recursive tree compiler (Model/Compile.v) "
           "produces exactly the worklist model's code; machine-checked witnesses show the two exclusions are necessary; and "
-          "C05_full: for EVERY proper tree outside C05-K1 / C05-K2 and EVERY initial state, the code the tree compiler "
+          "C05_full: for EVERY proper tree outside C05-K2 (a shape the parser never produces) and EVERY initial state, the code the tree compiler "
           "produces is well-formed (induction on the tree with the pending-bodies invariant: every placeholder is owned by a "
           "registered body or arm, every registered body is emitted, patches its placeholder, adds an instruction and ends in "
           "a terminator). compile_agrees_full (Proofs/Builder/*.v, by induction on the tree: one iteration of build()'s node loop "
@@ -37,8 +37,8 @@ MANIFEST_ENTRY = {
  },
  "level_note": "Trusted: Coq kernel (vm_compute for the finite theorems); extraction; the Rust harness wfcode, the OCaml driver "
                "and tools/codelib.py (native re-implementation of the checker). Literal parsing is an oracle of the builder model "
-               "(lit_ok); data-operand kinds are checked on the real data objects only. Known findings C05-K1 (empty pending body "
-               "whose end instruction is elided) is excluded and re-confirmed on every run; C05-K2 is not reachable from source text.",
+               "(lit_ok); data-operand kinds are checked on the real data objects only. The former finding C05-K1 (empty pending body "
+               "whose end instruction was skipped) is repaired in build.rs (b7aaffe) and its inputs stay in the corpus; C05-K2 is not reachable from source text.",
  "technique": "Coq proof (checker soundness, finite theorems by vm_compute, refutation witnesses) over executable models + "
               "differential correspondence with the Rust builder + native oracle on the real instruction streams"
 }
@@ -90,18 +90,8 @@ def init_of(oracle):
 
 
 def classify(nodes, root, bad, init):
-    """finding id for a not-well-formed real build, or None.
-    C05-K1: a pending body that compiles to nothing (or, after another program, a whole program that
-    compiles to nothing while the previous instruction is EndExpression) AND the only failing clause is
-    the jump-entry clause (an entry pointing at / past the end of the stream)."""
-    il, jl, last = init
-    only_jumps = all(b.startswith("jumps") for b in bad)
-    if not only_jumps:
-        return None
-    if cl.has_empty_body(nodes, root):
-        return "C05-K1"
-    if nodes and cl.silent(nodes, root) and last.startswith("6"):
-        return "C05-K1"
+    """finding id for a not-well-formed real build, or None.  No class is listed: the former C05-K1 (a body
+    that compiles to nothing) was repaired in build.rs (commit b7aaffe); C05-K2 is not reachable from source."""
     return None
 
 
@@ -213,8 +203,7 @@ def run(tier, seed):
         "C05_compile_agrees_bounded_5": "bounded(5, reduced)", "C05_K1_refuted": "refuted-witness",
         "C05_K1_shared_refuted": "refuted-witness", "C05_K2_refuted": "refuted-witness",
         "C05_operands_meta_all_trees": "full (all trees, all initial states, no exclusion)",
-        "C05_full": "full for the tree compiler (all proper trees outside C05-K1/K2, all initial states); tied to the worklist "
-                    "model by the bounded agreement theorems and the differential run"}
+        "C05_full": "full (all proper trees outside C05-K2, all initial states); carried to the worklist model by compile_agrees_full"}
     ok, exe, out = cl.harness_exe("wfcode")
     if not ok:
         v.tie_failure("harness build failed: " + out)
